@@ -16,9 +16,9 @@ import (
 	ptypes "github.com/polynetwork/poly/native/service/header_sync/polygon/types"
 	psecp "github.com/polynetwork/poly/native/service/header_sync/polygon/types/secp256k1"
 
+	tm34crypto "github.com/switcheo/tendermint/crypto"
 	tm34ed "github.com/switcheo/tendermint/crypto/ed25519"
 	tm34secp "github.com/switcheo/tendermint/crypto/secp256k1"
-	tm34crypto "github.com/switcheo/tendermint/crypto"
 	tm34bytes "github.com/switcheo/tendermint/libs/bytes"
 	tm34proto "github.com/switcheo/tendermint/proto/tendermint/types"
 	tm34version "github.com/switcheo/tendermint/proto/tendermint/version"
@@ -85,20 +85,25 @@ type voteSpec struct {
 }
 
 type headerSpec struct {
-	Rel       int        `json:"rel"`               // height = tracked height + Rel
-	Set       int        `json:"set"`               // -1: the set whose hash is currently trusted; else index (mod number of sets)
-	Next      int        `json:"next"`              // index of the next validator set; -2: an unknown hash
-	Ver       int        `json:"ver,omitempty"`     // cosmos: block version (10 legacy amino, 11 protobuf); 0 = 10
-	VH        string     `json:"vh,omitempty"`      // header.ValidatorsHash: "" hash of presented set | other | fmt (other version's format)
-	Chain     string     `json:"chain,omitempty"`   // header chain id: "" tracked | other
-	Votes     []voteSpec `json:"votes,omitempty"`   // per position (cyclic); empty = everybody commits honestly
-	CHash     string     `json:"chash,omitempty"`   // commit block hash: "" header hash | other
-	CHeight   int        `json:"cheight,omitempty"` // commit height = header height + CHeight
-	SigDelta  int        `json:"sigd,omitempty"`    // -1 drop the last entry, +1 append an absent entry
-	Shuffle   int        `json:"shuf,omitempty"`    // rotate the presented validator list
-	BadSet    string     `json:"bad,omitempty"`     // "" | dup (first validator listed twice) | zero (extra zero-power validator)
-	AppOther  bool       `json:"appother,omitempty"`
-	appHash   []byte     // set by deposit ops
+	Rel      int        `json:"rel"`               // height = tracked height + Rel
+	Set      int        `json:"set"`               // -1: the set whose hash is currently trusted; else index (mod number of sets)
+	Next     int        `json:"next"`              // index of the next validator set; -2: an unknown hash
+	Ver      int        `json:"ver,omitempty"`     // cosmos: block version (10 legacy amino, 11 protobuf); 0 = 10
+	VH       string     `json:"vh,omitempty"`      // header.ValidatorsHash: "" hash of presented set | other | fmt (other version's format)
+	Chain    string     `json:"chain,omitempty"`   // header chain id: "" tracked | other
+	Votes    []voteSpec `json:"votes,omitempty"`   // per position (cyclic); empty = everybody commits honestly
+	CHash    string     `json:"chash,omitempty"`   // commit block hash: "" header hash | other | epoch (the stored epoch block hash)
+	CHeight  int        `json:"cheight,omitempty"` // commit height = header height + CHeight
+	SigDelta int        `json:"sigd,omitempty"`    // -1 drop the last entry, +1 append an absent entry
+	Shuffle  int        `json:"shuf,omitempty"`    // rotate the presented validator list
+	BadSet   string     `json:"bad,omitempty"`     // "" | dup (first validator listed twice) | zero (extra zero-power validator)
+	AppOther bool       `json:"appother,omitempty"`
+	appHash  []byte     // set by deposit ops
+	// genesis payload overrides (TestC19): stored fields that are malformed but accepted by the install path
+	nvhRaw   []byte
+	nvhSet   bool
+	vhEmpty  bool
+	chainRaw *string
 }
 
 // setContent is the canonical content of a validator set: sorted (key,power) pairs.
@@ -168,6 +173,7 @@ type plan struct {
 	pos        []valSpec // position -> validator
 	cheight    int64
 	chashOther bool
+	chashRaw   []byte     // commit names this block hash (e.g. the stored epoch block hash) instead of the header's
 	votes      []voteSpec // resolved per position (len = number of entries)
 	hdrHash    []byte     // out
 }
@@ -254,6 +260,9 @@ func (r tmRouter) encode(p *plan) []byte {
 	chash := p.hdrHash
 	if p.chashOther {
 		chash = h32(fmt.Sprintf("otherblock-%d", p.height))
+	}
+	if p.chashRaw != nil {
+		chash = p.chashRaw
 	}
 	bid := types.BlockID{Hash: chash, PartsHeader: types.PartSetHeader{Total: 1, Hash: h32("parts")}}
 	signBytes := func(chain string, b types.BlockID, ts time.Time) []byte {
@@ -376,6 +385,9 @@ func (heiRouter) encode(p *plan) []byte {
 	chash := p.hdrHash
 	if p.chashOther {
 		chash = h32(fmt.Sprintf("otherblock-%d", p.height))
+	}
+	if p.chashRaw != nil {
+		chash = p.chashRaw
 	}
 	bid := ptypes.BlockID{Hash: chash, PartsHeader: ptypes.PartSetHeader{Total: 1, Hash: h32("parts")}}
 	n := len(p.pos)
